@@ -150,3 +150,14 @@ A(M("c11-fields-swapped", "C11", AN, "return BaseInteractions(base_pairs, stacki
 A(M("c11-lw-reverse", "C11", C, 'return LeontisWesthof[f"{self.name[0]}{self.name[2]}{self.name[1]}"]', 'return LeontisWesthof[f"{self.name[0]}{self.name[1]}{self.name[2]}"]', "lw-reverse"))
 A(M("c11-split-60", "C11", AN, "                return 1 if -90.0 < torsion < 90.0 else 3", "                return 1 if -60.0 < torsion < 60.0 else 3", "bph-split"))
 A(M("c11-saenger-key-order", "C11", AN, 'key = (f"{residue_i.one_letter_name}{residue_j.one_letter_name}", lw.value)', 'key = (f"{residue_j.one_letter_name}{residue_i.one_letter_name}", lw.value)', "saenger-lookup"))
+
+# ---------------------------------------------------------------- C05
+A(M("c05-point-for-vector", "C05", AN, "        vector = atom_i.coordinates - atom_j.coordinates\n", "        vector = atom_i.coordinates\n", "invariance-typing"))
+A(M("c05-z-filter", "C05", AN, "        # check for base-base contacts\n", "        if atom_i.z > 0:\n            continue\n        # check for base-base contacts\n", "invariance-typing"))
+A(M("c05-sort-coordinates", "C05", AN, "    kdtree = KDTree(coordinates)\n\n    # find all hydrogen bonds", "    coordinates = sorted(coordinates)\n    kdtree = KDTree(coordinates)\n\n    # find all hydrogen bonds", "invariance-typing"))
+A(M("c05-positional-atom", "C05", TT, '            n9 = self.find_atom("N9")\n            n7 = self.find_atom("N7")', '            n9 = self.atoms[0]\n            n7 = self.find_atom("N7")', "positional-atom"))
+A(M("c05-number-arith", "C05", AN, "        if residue_i < residue_j:\n            for edge_i in edges_i:", "        if abs(residue_i.number - residue_j.number) > 10000:\n            continue\n        if residue_i < residue_j:\n            for edge_i in edges_i:", "identity-arithmetic"))
+A(M("c05-gap-unguarded", "C05", TT, "                if self.find_gaps:\n                    if not previous.is_connected(residue):", "                if True:\n                    if not previous.is_connected(residue):", "identity-arithmetic"))
+A(M("c05-centroid-abs", "C05", AN, "        vector = numpy.array([coordinates[i][k] - coordinates[j][k] for k in (0, 1, 2)])", "        vector = numpy.array([coordinates[i][k] for k in (0, 1, 2)])", "invariance-typing"))
+A(M("c05-normal-unnormalised-silent", "C05", TT, "        return normal / numpy.linalg.norm(normal)", "        length = numpy.linalg.norm(normal)\n        return normal / length", kind="silent"))
+A(M("c05-lt-label", "C05", TT, "        return (self.model, self.chain, self.number, self.icode or \" \") < (\n            other.model,\n            other.chain,\n            other.number,\n            other.icode or \" \",\n        )", "        return (self.model, self.chain, self.number) < (\n            other.model,\n            other.chain,\n            other.number,\n        )", "identity-order"))
